@@ -6,7 +6,15 @@ import random
 
 from . import common
 
-LEVEL = 'exploration'
+LEVEL = 'other'
+
+# Kit C: the functions of the chunk machinery that are under contract (proved for all inputs), with the builder contracts they call
+KIT_C = [
+    'nbdime.diff_format.op_removerange',
+    'nbdime.diff_format.SequenceDiffBuilder.__init__', 'nbdime.diff_format.SequenceDiffBuilder.validated',
+    'nbdime.diff_format.SequenceDiffBuilder.append',
+    'nbdime.merging.chunks.split_diffs_on_boundaries',
+]
 
 ACTIONS = ['source', 'outputs', 'metadata', 'execution_count', 'delete', 'leave', 'source2']
 
@@ -297,6 +305,8 @@ def _cli_job(job):
 
 
 def run(res):
+    # proof part (Kit C): splitting the removeranges of a diff at the chunk boundaries preserves what the diff does, for all inputs
+    common.prove(res, KIT_C)
     q = res.tier == 'quick'
     jobs = [(res.seed * 9173 + s, 150 if q else 600) for s in range(32 if q else 96)]
     results = common.pmap(_job, jobs) + common.pmap(_json_job, [(res.seed * 9173 + 700 + s, 1500 if q else 10000) for s in range(16)])
@@ -320,6 +330,11 @@ def run(res):
                             'directly from the chosen actions. Generic JSON: dicts with per-key ownership, lists with changes separated by an untouched item. Command line: real '
                             'nbmerge --out / git-nbmergedriver merge processes on by-construction cases full of text outside ASCII, in the inherited locale and in a process '
                             'whose locale encoding is not UTF-8 (LC_ALL=C, UTF-8 mode and coercion off).')
+    res.coverage['explanation'] = ('Proof part (Kit C): nbdime.merging.chunks.split_diffs_on_boundaries -- for every base list A, every diff well formed for A and every '
+                                   'strictly increasing boundary list containing the begin and end of each removerange, the split diff runs to the same output and cursor '
+                                   '(rout/rtake), hence apply_seq(A, result) == apply_seq(A, diffs); no subscript leaves its list, the sanity assert holds and the final raise is '
+                                   'unreachable; both inner loops terminate. NOT proved (bounded stand-in only): get_section_boundaries, make_chunks, _merge_lists and the decision '
+                                   'machinery, i.e. the property itself.')
     res.assumptions.append('bounded: only the stated small scope is explored')
 
 
